@@ -97,10 +97,11 @@ def PortWF (A : Arith F) (p : PortInfo F) : Prop :=
     A.le mn mx = true ∧ (∀ l, p.logmin = some l → A.le l mx = true)) ∧
   (p.hasF = false → p.hasT = true → p.scaleLog = false)
 
-/-- MIDI channel and controller numbers are not negative; bound ports have non-empty ranges -/
+/-- MIDI channel and controller numbers are not negative; bound ports have non-empty ranges;
+    an address fits the 128-byte `param_path` buffer (a longer one is cut off by the code) -/
 def OpWF (A : Arith F) : Op F → Prop
-  | .bind _ _ port _ => ∀ p, port = some p → PortWF A p
-  | .setPath _ _ _ port => ∀ p, port = some p → PortWF A p
+  | .bind _ path port _ => path.length ≤ 127 ∧ ∀ p, port = some p → PortWF A p
+  | .setPath _ _ path port => path.length ≤ 127 ∧ ∀ p, port = some p → PortWF A p
   | .midi c t _ => 0 ≤ c ∧ 0 ≤ t
   | _ => True
 
@@ -114,14 +115,52 @@ inductive Reachable (A : Arith F) (nslots perSlot : Nat) : Mgr F → Prop
 
 /-! ### what may be emitted -/
 
-/-- the message is what the property allows for automation `au`: its address, its type, a
-    value inside its range (`toInt (roundf ·)` of the bounds for integers — the bounds
-    themselves when they are integer-valued —, `expf` of the stored logarithmic bounds
-    for log scale, true/false for toggles) -/
+/-! #### the specification: stated about the PORT that was bound, not about the automation -/
+
+/-- the parameter's type as its port declares it: float if the port's name mentions `:f`,
+    else a toggle if it mentions `:T`, else integer -/
+def portType (p : PortInfo F) : Char := if p.hasF then 'f' else if p.hasT then 'T' else 'i'
+
+/-- the declared range of a port, as `float`s: 0..1 for a toggle, `min`..`max` otherwise; a
+    log-scale port that declares `logmin` starts there -/
+def portRange (A : Arith F) (p : PortInfo F) : Option (F × F) :=
+  if portType p = 'T' then some (A.zero, A.one)
+  else match p.min, p.max with
+    | some mn, some mx =>
+      some (if p.scaleLog then (p.logmin.map A.to32).getD (A.to32 mn) else A.to32 mn, A.to32 mx)
+    | _, _ => none
+
+/-- what the property allows to be sent for the parameter `p` bound under the address `path`:
+    exactly that address, the parameter's type, and a value inside the declared range
+    `[lo,hi] = portRange p` — for integers `(int)roundf` of the bounds (the bounds themselves
+    when they are integer-valued); for a log-scale parameter the bounds pass through
+    `expf ∘ logf` (libm's rounding: the property's 1e-5 tolerance); true/false for toggles -/
+def MsgOKPort (A : Arith F) (path : Bytes) (p : PortInfo F) (msg : Msg F) : Prop :=
+  msg.addr = path ∧
+  ∃ lo hi, portRange A p = some (lo, hi) ∧
+  ((portType p = 'i' ∧ p.scaleLog = false ∧ msg.ty = 'i' ∧
+      ∃ n, msg.val = .int n ∧ A.toInt (A.roundf lo) ≤ n ∧ n ≤ A.toInt (A.roundf hi)) ∨
+   (portType p = 'i' ∧ p.scaleLog = true ∧ msg.ty = 'i' ∧
+      ∃ n, msg.val = .int n ∧ A.toInt (A.roundf (A.expf (A.logf lo))) ≤ n ∧
+        n ≤ A.toInt (A.roundf (A.expf (A.logf hi)))) ∨
+   (portType p = 'f' ∧ p.scaleLog = false ∧ msg.ty = 'f' ∧
+      ∃ x, msg.val = .flt x ∧ A.le lo x = true ∧ A.le x hi = true) ∨
+   (portType p = 'f' ∧ p.scaleLog = true ∧ msg.ty = 'f' ∧
+      ∃ x, msg.val = .flt x ∧ A.le (A.expf (A.logf lo)) x = true ∧ A.le x (A.expf (A.logf hi)) = true) ∨
+   (portType p = 'T' ∧ (msg.ty = 'T' ∨ msg.ty = 'F') ∧ msg.val = .none))
+
+/-! #### the same, in terms of what the automation stores (used inside the proofs) -/
+
+/-- the message is what the stored fields of automation `au` allow: its address, its type, a
+    value inside its stored range (`toInt (roundf ·)` of the bounds for integers, `expf` of the
+    stored logarithmic bounds for log scale, true/false for toggles) -/
 def MsgOK (A : Arith F) (au : Automation F) (msg : Msg F) : Prop :=
   msg.addr = au.path ∧
-  ((au.ty = 'i' ∧ msg.ty = 'i' ∧
+  ((au.ty = 'i' ∧ au.logScale = false ∧ msg.ty = 'i' ∧
       ∃ n, msg.val = .int n ∧ A.toInt (A.roundf au.pmin) ≤ n ∧ n ≤ A.toInt (A.roundf au.pmax)) ∨
+   (au.ty = 'i' ∧ au.logScale = true ∧ msg.ty = 'i' ∧
+      ∃ n, msg.val = .int n ∧ A.toInt (A.roundf (A.expf au.pmin)) ≤ n ∧
+        n ≤ A.toInt (A.roundf (A.expf au.pmax))) ∨
    (au.ty = 'f' ∧ au.logScale = false ∧ msg.ty = 'f' ∧
       ∃ x, msg.val = .flt x ∧ A.le au.pmin x = true ∧ A.le x au.pmax = true) ∨
    (au.ty = 'f' ∧ au.logScale = true ∧ msg.ty = 'f' ∧
@@ -144,21 +183,59 @@ def MsgsLe (A : Arith F) : List (Msg F) → List (Msg F) → Prop
   | a :: l1, b :: l2 => MsgLe A a b ∧ MsgsLe A l1 l2
   | _, _ => False
 
-/-- the automation was filled in from a well-formed port by createBinding/setSlotSubPath:
-    address (truncated to the 127 characters the buffer holds), type and range are the
-    port's -/
+/-- the automation still holds what createBinding/setSlotSubPath filled in from the
+    well-formed port `p` found under the address `path` — the call its ghost field `bound`
+    remembers: address, type and range are what `bindInfo` stores for that port -/
 def FromPort (A : Arith F) (au : Automation F) : Prop :=
   ∃ (au0 b : Automation F) (path : Bytes) (p : PortInfo F),
-    PortWF A p ∧ portUsable (some p) = some p ∧ bindInfo A au0 path p = some b ∧
+    PortWF A p ∧ portUsable (some p) = some p ∧ path.length ≤ 127 ∧ bindInfo A au0 path p = some b ∧
+    au.bound = some (path, p) ∧
     au.path = b.path ∧ au.ty = b.ty ∧ au.pmin = b.pmin ∧ au.pmax = b.pmax ∧ au.logScale = b.logScale
 
-/-- invariant of every `used` automation: bound to a port, control points in sync with
-    min/max/gain/offset -/
+/-- invariant of every automation: a `used` one is bound to a port and its control points are
+    in sync with min/max/gain/offset; an unused one remembers no port -/
 def Good (A : Arith F) (au : Automation F) : Prop :=
-  au.used = true → FromPort A au ∧ (au.cp1, au.cp3) = mapping A au.pmin au.pmax au.gain au.offset
+  (au.used = true → FromPort A au ∧ (au.cp1, au.cp3) = mapping A au.pmin au.pmax au.gain au.offset) ∧
+  (au.used = false → au.bound = none)
 
 def AllAutos (m : Mgr F) (P : Automation F → Prop) : Prop :=
   ∀ sl ∈ m.slots, ∀ au ∈ sl.autos, P au
+
+/-! ### the binding table: which parameter every automation is bound to (ghost observable) -/
+
+/-- per slot, per sub-automation: the address and port it is bound to, if any -/
+abbrev BTable (F : Type) := List (List (Option (Bytes × PortInfo F)))
+/-- the ghost fields of a manager, as a table -/
+def boundsOf (m : Mgr F) : BTable F := m.slots.map (fun sl => sl.autos.map (·.bound))
+
+/-- index of the first empty entry of a row -/
+def firstNone {α : Type} : List (Option α) → Nat → Option Nat
+  | [], _ => none
+  | x :: r, i => if x.isNone then some i else firstNone r (i + 1)
+
+/-- what the operations do to the binding table, as the statement reads them: createBinding on
+    a usable port fills the first free sub-automation of the slot with (address, port),
+    setSlotSubPath fills the named one, clearSlot empties the slot's row, clearSlotSub the
+    named entry (`per` = sub-automations per slot; out-of-range indices address nothing);
+    no other operation changes what anything is bound to -/
+def absBind (per : Nat) (B : BTable F) : Op F → BTable F
+  | .bind s path port _ =>
+    match portUsable port with
+    | none => B
+    | some p => B.modify s.toNat (fun row =>
+        match firstNone row 0 with
+        | some j => row.set j (some (path, p))
+        | none => row)
+  | .setPath s j path port =>
+    if s < 0 then B else
+    match portUsable port with
+    | none => B
+    | some p => B.modify s.toNat (fun row => row.set j.toNat (some (path, p)))
+  | .clearSlot s => if s < 0 then B else B.modify s.toNat (fun row => row.map (fun _ => none))
+  | .clearSub s j =>
+    if s < 0 ∨ j < 0 ∨ j ≥ (per : Int) then B
+    else B.modify s.toNat (fun row => row.modify j.toNat (fun _ => none))
+  | _ => B
 
 /-! ### order laws assumed of the arithmetic -/
 
